@@ -93,7 +93,26 @@ impl Property for C05 {
                     ]
                 });
                 let nav = proptest::collection::vec(sel(&NAV_COMMANDS[..34]).prop_map(|s| s.to_string()), 0..4);
-                (tree, prefs, nav).prop_map(|(tree, prefs, nav)| Case { tree, prefs, nav })
+                // author ids on some elements (any attribute value is legal XML: plain, empty, blank, with quotes, repeated):
+                // ids steer the navigation markers that must never reach the caller
+                let ids = prop_oneof![
+                    3 => Just(vec![]),
+                    1 => proptest::collection::vec((any::<u16>(), sel(&["n1", "", " ", "a b", "x'y", "n1", "M0", "[[", "0"])), 1..4),
+                ];
+                (tree, prefs, nav, ids).prop_map(|(mut tree, prefs, nav, ids)| {
+                    let n = tree.count_nodes();
+                    for (pos, id) in ids {
+                        let target = (pos as usize * n) >> 16;
+                        let mut i = 0;
+                        tree.walk_mut(&mut |node| {
+                            if i == target && node.tag != "#text" && node.get_attr("id").is_none() {
+                                node.attrs.push(("id".to_string(), id.to_string()));
+                            }
+                            i += 1;
+                        });
+                    }
+                    Case { tree, prefs, nav }
+                })
             })
             .boxed()
     }
